@@ -166,6 +166,13 @@ impl ZoneModel {
     }
 
     pub fn lookup_in(&self, eff: &[ZRec], qname: &N, qtype: u16) -> ZR {
+        self.lookup_opts(eff, qname, qtype, true)
+    }
+
+    /// `ns_at_cut_answers`: whether an NS question at a delegation point is
+    /// answered from the zone (this implementation's local zones, C02) or
+    /// referred like every other question there (a real authoritative server).
+    pub fn lookup_opts(&self, eff: &[ZRec], qname: &N, qtype: u16, ns_at_cut_answers: bool) -> ZR {
         let qname = qname.lower();
         let apex = self.apex.lower();
         debug_assert!(qname.is_at_or_below(&apex));
@@ -179,7 +186,7 @@ impl ZoneModel {
                 .map(|r| (n.clone(), r.rtype, r.data.clone(), r.ttl))
                 .collect();
             if !ns.is_empty() {
-                if n == qname && qtype == T_NS {
+                if n == qname && qtype == T_NS && ns_at_cut_answers {
                     break;
                 }
                 return ZR::Referral(ns);
